@@ -15,7 +15,7 @@ import (
 
 var weights = map[string]int{
 	"next": 10, "extend": 2, "lookup": 4, "derivePath": 1, "markUsed": 4, "lock": 2, "unlock": 3, "changePass": 1,
-	"newAccount": 3, "newWOAcct": 3, "rename": 3, "importKey": 2, "importScript": 1, "importPubKey": 1, "setSynced": 3, "newScope": 1, "restart": 1, "convert": 1,
+	"newAccount": 3, "newWOAcct": 3, "rename": 3, "invalidate": 1, "importKey": 2, "importScript": 1, "importPubKey": 1, "setSynced": 3, "newScope": 1, "restart": 1, "convert": 1,
 }
 
 func TestC08MemoryEqualsRestart(t *testing.T) {
